@@ -163,9 +163,9 @@ fn authenticate_message(lm_challenge_response: &[u8], nt_challenge_response:&[u8
 fn get_payload_field(message: &Component, length: u16, buffer_offset: u32) -> RdpResult<&[u8]> {
     let payload = cast!(DataType::Slice, message["Payload"])?;
     let offset = message.length() as usize - payload.len();
-    let start = buffer_offset as usize - offset;
+    let start = try_option!((buffer_offset as usize).checked_sub(offset), "NTLM: payload field offset points into the message header")?;
     let end = start + length as usize;
-    Ok(&payload[start..end])
+    try_option!(payload.get(start..end), "NTLM: payload field is outside of the message")
 }
 
 
